@@ -127,11 +127,12 @@ static uint8_t * pack_samples(uint32_t dt, int pat, uint64_t seed, uint64_t coun
     *nbytes = n;
     return b;
 }
-/* strspec / payspec: '-' NULL ; 'e' empty ; g<len>.<seed> ; x<hex>.  Returns malloc'ed
+/* strspec / payspec: '-' NULL ; 'e' empty ; g<len>.<seed> ; x<hex> ; n<len> NULL pointer with a claimed size of len.  Returns malloc'ed
  * buffer of exactly len (+1 NUL if nul) bytes, *len = byte count without the NUL */
 static uint8_t * gen_bytes(const char * spec, int printable, int nul, size_t * len, int * is_null) {
     *is_null = 0; *len = 0;
     if (spec[0] == '-') { *is_null = 1; return NULL; }
+    if (spec[0] == 'n') { *is_null = 1; *len = (size_t) strtoul(spec + 1, NULL, 10); return NULL; }
     if (spec[0] == 'e') { uint8_t * b = malloc(1); b[0] = 0; return b; }
     if (spec[0] == 'g') {
         unsigned long n = 0; unsigned long long seed = 0;
@@ -323,7 +324,7 @@ static void run_op(struct prog_s * p, char * op) {
         int at = (int) TOKI(4); int grp = (int) TOKI(5); int st = (int) TOKI(6);
         size_t l; int is_null; int is_str = (st == JLS_STORAGE_TYPE_STRING || st == JLS_STORAGE_TYPE_JSON);
         uint8_t * b = gen_bytes(TOK(7), is_str, is_str, &l, &is_null);
-        uint32_t sz = (uint32_t) (is_str ? l + 1 : l);
+        uint32_t sz = (uint32_t) ((is_str && !is_null) ? l + 1 : l);
         int32_t rc = p->wr ? jls_wr_annotation(p->wr, sig, ts, y, at, (uint8_t) grp, st, b, sz)
                    : (p->twr ? jls_twr_annotation(p->twr, sig, ts, y, at, (uint8_t) grp, st, b, sz) : -1);
         printf(" %d", rc);
@@ -341,7 +342,7 @@ static void run_op(struct prog_s * p, char * op) {
         size_t l; int is_null; int is_str = (st == JLS_STORAGE_TYPE_STRING || st == JLS_STORAGE_TYPE_JSON);
         uint8_t * b = gen_bytes(TOK(3), is_str, is_str, &l, &is_null);
         uint32_t sz = (uint32_t) (is_str ? l + 1 : l);
-        if (is_null) sz = 0;
+        if (is_null) sz = (uint32_t) l;   /* '-': 0 ; n<len>: len */
         int32_t rc = p->wr ? jls_wr_user_data(p->wr, meta, st, b, sz)
                    : (p->twr ? jls_twr_user_data(p->twr, meta, st, b, sz) : -1);
         printf(" %d", rc);
